@@ -25,6 +25,61 @@ READY = {
         note="Trusted: Lean kernel + standard axioms; hand-written model of the recurrences and of _synparam_at (on top of the C01 ring and C02 select models) validated by correspondence; dyadic dt/charges/delays so grid and range decisions are exact, exp compared at 1e-9; tolerance >= 0; per-element model (C11 covers batch independence).",
         tech="Lean 4 proofs by induction over spike trains (recurrence = closed-form sum; delayed read = ring-buffer history) + per-step correspondence with the real synapse classes",
         ref="DESIGN.md §6 C04"),
+    "C02": dict(
+        text="Theorems (Lean 4 + Mathlib, over the reals, every ring size / pointer / offset / time / kernel; dt > 0, tol >= 0): select on the grid (within tolerance) returns the stored observation without interpolating; off the grid it returns interp(older bracket, newer bracket, time since the older one, dt) with adjacent in-range brackets; scalar-time and tensor-time paths agree; select/insert raise exactly on out-of-range times; insert writes exactly on the grid, extrapolates onto the two bracketing slots off the grid (in-place, writerange and scatter paths identical) and touches no other slot; insert-then-select returns the sample for every shipped pair (theorems about the GENERATED kernels) with negation witnesses for necessary hypotheses (mismatched pair, end points, tol < 0). The exact rational run of the driver is proved to be the real-number run. Tied by after-every-op correspondence on real RecordTensors (dyadic dt, exhaustive small sweeps) and relational scalar-vs-tensor / round-trip checks on the real code.",
+        note="Trusted: Lean kernel + standard axioms; translator for the interpolation/extrapolation kernels (validated per run); hand-written model of select/insert index logic on the C01 ring validated by correspondence; non-dyadic dt (0.3, 1.3) reported as partial (float).",
+        tech="Lean 4 case-law and algebraic round-trip proofs over generated kernels + exact-rational correspondence with RecordTensor.select/insert",
+        ref="DESIGN.md §6 C02"),
+    "C05": dict(
+        text="Theorems (Lean 4, generic over commutative semirings): dense = x W^T + b, direct = x*w + b, lateral = off-diagonal part (and the diagonal of weight and delay is zero after EVERY sequence of assignments and updater applications — induction); conv2d as computed (unfold, flattened-kernel matmul, reshape, bias) equals the 2-D cross-correlation for ALL H, W, C, F, kernel, stride, padding, dilation, with the floor output-size formula characterised as the count of fitting windows; like_input(like_synaptic(x)) = count*x on every input position; receptive views broadcast to the documented weight-shaped result. Tied by exact integer-valued correspondence against real connections (geometry grid, F.conv2d as a second opinion only).",
+        note="Trusted: Lean kernel + standard axioms; hand-written models of F.linear / F.unfold / F.fold / einops reshapes validated by correspondence; integer-valued tensors so float32 is exact; non-finite values assigned to a lateral weight (inf*0 = NaN on the diagonal) are outside the modelled domain.",
+        tech="Lean 4 index-bijection / sum re-indexing proofs and an invariant over assignment histories + exact correspondence with the real connection classes",
+        ref="DESIGN.md §6 C05"),
+    "C06": dict(
+        text="Theorems (Lean 4 + Mathlib): for delays d_{o,i} = k_{o,i}*dt within the supported maximum, the delayed dense/lateral, direct and conv forward equals the undelayed map applied to presynaptic contributions taken k_{o,i} steps back (zero before the start / last clear) — built from C04's delayed-read theorem and the linear-map models; zero delays or a zero maximum give the undelayed output; syncurrent/synspike show the same shifted values; off-grid delays read the synapse's interpolated history. Tied by a relational run on the REAL code: delayed connection vs an independently stepped undelayed twin shifted per synapse, 4 connection kinds x 4 synapse kinds, heterogeneous delays, clear mid-run.",
+        note="Trusted: as C04/C05 plus the selector construction model; dt = 1.3 compared at 1e-6 relative — partial (float).",
+        tech="Lean 4 composition proof (ring-buffer history + linear map) + relational differential run against an undelayed twin",
+        ref="DESIGN.md §6 C06"),
+    "C07": dict(
+        text="Theorems (Lean 4 + Mathlib) about the fold steps GENERATED from core/trace.py and core/math.py, for every observation sequence (induction): cumulative trace = sum over matching events of A*d^(n-k) (d = exp(-dt/tau)), nearest trace = A*d^(n-last) and 0 before the first event, scaled/conditional variants, event reducer = time since the last event, pass-through, cumulative average, exponential smoothing closed form; the FoldReducer state machine (lazy initialise, push, peek, dump = align then flip, clear(keepshape), view through C02's select, dt/duration setters through C13's resize) refines the list-of-fold-values specification over ALL op sequences; clear-then-run = fresh run on complete output streams; reducer-specific view interpolation. Tied by per-op correspondence on all 11 real reducer classes (exhaustive boolean histories + random streams) against model, spec machine and independently computed closed forms.",
+        note="Trusted: Lean kernel + standard axioms; translator (validated per run); hand-written reducer machine validated by correspondence. Side condition stated in the theorems: refinement with dt/duration assignments requires fill = 0 (growing a record pads with zeros, not the reducer's fill) — negation witness resize_after_clear_witness; inf/nan initial values modelled by one absorbing value.",
+        tech="Lean 4 closed forms by induction over event histories (recurrence lemma) + refinement of the reducer state machine + correspondence with the real reducers",
+        ref="DESIGN.md §6 C07"),
+    "C08": dict(
+        text="Theorems (Lean 4 + Mathlib) on a per-weight model built from the GENERATED trace recurrences: for every pre/post spike history of every length, the summed STDP updates equal the documented double sum over spike pairs (cumulative: all pairs, simultaneous pairs counted in both halves as the code does; nearest: most recent partner only), presynaptic times shifted by the delay (delayed-record mode = frozen mode = shifted train, via the ring-buffer history theorem); MSTDP scales by the (per-sample) signal; MSTDPET filter z(t+1) = z(t)*exp(-dt/tau_z) + c(t+1)/tau_z; triplet factor = 1 + slow trace of the triggering population one step earlier; batch sum/mean. Tied by correspondence on real Serial layers with forced post spikes: EXHAUSTIVE over all 4^T histories of 1x1 cells (T = 5 quick, 7 thorough) + random populations, all sign modes, trace modes, delay modes, signals.",
+        note="Trusted: Lean kernel + standard axioms; translator; hand-written trainer wiring (amplitudes, which trace, routing) validated by correspondence; Real/Float model copies textually identical (checked per run); StableSTDP variants and off-grid delays not covered.",
+        tech="Lean 4 pair-sum identities by induction over steps (recurrence = closed form) + exhaustive short-history correspondence with the real trainers",
+        ref="DESIGN.md §6 C08"),
+    "C09": dict(
+        text="Theorems (Lean 4 + Mathlib) on the routing tables of all trainer families transcribed from each forward's match statement (definitions shared between reals, rationals and floats): for non-negative magnitudes both parts are non-negative and pos - neg = sgn(eta_post)*dpost + sgn(eta_pre)*dpre for every sign mode; Hebbian direction; reward sign flips; kernel clamp split nets to the signed kernel; potentiation goes through the upper bound and depression through the lower (via C10). Homeostasis: FULL statement kept visible and FALSE for the code — proved instead: pos = max k 0, pos - neg = |k|, witness with a negative depressive part (known finding D9, pinned by the existing test suite). Tied by running every exported trainer on small real layers in all sign combinations and reading the real accumulators.",
+        note="Trusted: Lean kernel + standard axioms; hand transcription of the routing tables validated by correspondence against the real accumulators; D9 is re-observed on every run and printed as KNOWN-FINDING (key C09:homeostasis:neg-part-sign); any other violation is still reported.",
+        tech="Lean 4 finite sign-table case analysis with real inequalities + correspondence with the real trainers' accumulators",
+        ref="DESIGN.md §6 C09"),
+    "C10": dict(
+        text="Theorems (Lean 4 + Mathlib): the Accumulator/Updater machine (parts, cached reductions, bind selection, update/clear/updatesome, constructor reduction) refines, over EVERY op list, the specification whose apply step is literally old + ub(reduce pos) - lb(reduce neg); cache coherence is an invariant with no hypothesis on the configured functions; order independence of sum/mean/max over List.Perm; no parts => no change; second apply after clear is a no-op; multiplicative / scaled multiplicative / scaled power (real exponents >= 1) dependence keeps a parameter inside [min, max] over update histories of ARBITRARY length (induction); sharp dependence never moves a parameter further beyond a reached limit; a constructor reduction is the one used. Bounding functions are single polymorphic definitions instantiated at reals, rationals and floats. Tied by random op interleavings on real Updatable objects with all 15 bounding functions, dyadic values compared exactly.",
+        note="Trusted: Lean kernel + standard axioms; hand-written machine and bounding formulas validated by correspondence (the 13 translatable bounding functions are also regenerated and validated by the translator); full power bounds with non-integer exponents outside the limits produce NaN in floats and are excluded from the real-number spec.",
+        tech="Lean 4 refinement + invariants by induction over operation / update histories + exact correspondence with the real Accumulator/Updater",
+        ref="DESIGN.md §6 C10"),
+    "C13": dict(
+        text="Theorems (Lean 4, core only): resizing a record from EVERY well-formed ring state keeps the newest min(old,new) observations at the same offsets and fills older new slots with zeros; the size formula max(ceil(duration/dt)+inclusive, 1) over rationals (ceil is the least m with m*dt >= duration) is an invariant over any op sequence in which no setter raised (generic in how the quotient is rounded, so also for the float quotient); temporal setters do not fail on uninitialised storage; the code-shaped machine (setters, reconstrain, push, value := ignored, initialize) refines the newest-first-list specification over all op lists; constraint bookkeeping: valid iff all constraints hold, incompatible add refused without side effect, remove never alters data, edit resizes only the edited dim. Tied by per-op correspondence from every ring state and storage kind, strict/non-strict, positive/negative dims.",
+        note="Trusted: Lean kernel + standard axioms; hand-written model of ShapedTensor/RecordTensor resize and constraint helpers validated by correspondence; size formula over exact rationals, IEEE quotient divergences counted in the evidence — partial (float); a non-strict user constraint aliasing the record dim is outside the claimed domain (setter raises after storing dt).",
+        tech="Lean 4 refinement and invariants by induction over setter / reconstrain sequences + correspondence with RecordTensor / ShapedTensor",
+        ref="DESIGN.md §6 C13"),
+    "C14": dict(
+        text="Theorems (Lean 4, core only) on a model of the configuration plumbing (BatchMixin, DelayedMixin, RecordReducer, synapse/neuron/connection forwarding, synapse replacement): ANY setter sequence ending in configuration c yields exactly the state (reported getters and sizes of all internal records) of constructing with c (induction over setter lists, per component kind), and assigning one attribute leaves every other reported attribute unchanged (frame); invalid assignments change nothing. Tied by a relational check on the REAL code: setter-built vs freshly constructed neurons, the four synapses, connections (incl. synapse replacement) and reducers — getters, recordsz of every internal RecordTensor, and identical outputs from a cleared state on seeded inputs.",
+        note="Trusted: Lean kernel + standard axioms; hand-written configuration model validated by correspondence; the equal-outputs clause is checked on the real code only (the Lean model carries sizes, not record contents).",
+        tech="Lean 4 induction over setter sequences (path independence + frame) + relational differential check setter-built vs constructor-built",
+        ref="DESIGN.md §6 C14"),
+    "C17": dict(
+        text="Theorems (Lean 4, core only), for arbitrary components (any state type, step and clear): serial layer = neuron(transform(connection(x))); biclique: every group receives pre_i(combine of all post_j(conn_j x_j)), one shared combination; recurrent-serial: the two generic forward passes with stored feedback equal the specification step, the first step sees zero feedback and later steps the previous feedback output (induction over runs); clear yields a layer observationally equivalent to a fresh twin carrying the same parameters, and every continuation after clear reproduces the fresh twin's outputs. Tied to real Serial/Biclique/RecurrentSerial layers by tape replay (what each real component received/returned/was cleared), a manually composed twin (bit-identical outputs), and clear-and-replay at every prefix; output shapes checked on the real layers.",
+        note="Trusted: Lean kernel + standard axioms; components are abstract in the theorems (their own contracts are C03-C06); hand-written layer wiring validated by tape replay.",
+        tech="Lean 4 wiring equations and replay-after-clear by induction over steps, generic in the components + tape-replay correspondence with real layers",
+        ref="DESIGN.md §6 C17"),
+    "C18": dict(
+        text="Theorems (Lean 4 + Mathlib): the EventReducer fold equals the true time since the last event (induction), hence t_delta = t_post_last - t_pre_last - d, no change before both sides have spiked, causal branch iff t_delta >= 0; DelayAdjustedKernelSTDP with the GENERATED exponential half kernels equals DelayAdjustedSTDP (and the D variants) for all four sign modes and sum/mean; zero delays reduce to the unadjusted kernel form; three-factor variants scale by scalar / per-sample signals. Tied by cross-implementation differentials on the real code (kernel vs dedicated rule, delay 0 vs unadjusted) and code vs the formula from true last-spike times.",
+        note="Trusted: Lean kernel + standard axioms; translator for the half kernels; hand-written trainer wiring validated by correspondence; the per-step delay is a model input; post spikes forced through ExactNeuron (so D4 does not interfere).",
+        tech="Lean 4 equalities between generated formulas and event-time bookkeeping by induction + cross-implementation differential on the real trainers",
+        ref="DESIGN.md §6 C18"),
     "C19": dict(
         text="Theorems (Lean 4) about a model of each encoder's deterministic post-processing with the SAMPLED TENSOR AS A PARAMETER, i.e. for every possible sample sequence (= all generator seeds): output has exactly `steps` rows time-first, rate 0 is silent, a step spikes iff a cumulative interval time falls in it, two spikes of one element are >= refrac/dt steps apart offline and online (induction), Bernoulli probability clamp; the encoder Module constructor/setter state machine keeps frequency*refrac < 1000 under compensation over every setter history. Tied to the code by sample replay (cloned torch.Generator state, same draws) with exact comparison, and by a search over seeds x intensities x steps x dt x frequency x refrac x compensate x online/offline on functional API and Modules.",
         note="Trusted: Lean kernel + standard axioms; hand-written model of the pipeline (cumsum/clamp/long/scatter, count-down) validated by sample replay; the sampler's call pattern (which draws, which shapes, which order) is a recorded assumption re-validated on every case by generator-state equality; sampler statistics are not claimed; float knife-edge cumsum covered by a monotone-rounding lemma.",
